@@ -402,7 +402,82 @@ class C15(PropertyCheck):
         for (W, B, b, s, counter), ans in zip(metas, self.driver.run(reqs)):
             if ans != b:
                 res.disagreements.append(Disagreement({"W": W, "B": B, "b": b, "s": s, "counter": counter}, ans, b, "model batch index differs from the global batch"))
+        self.loader_model(res, combos)
         self.schedule_length(res)
+
+    def loader_model(self, res, combos):
+        """the STATEFUL model of the scheduled transform (Model/C15Spec: per-worker sample counter, wrapped transform re-scaled on every
+        call, value written to ctx) against the real object in simulated workers: per call the reported strength (exact) and the
+        state of the wrapped transform after the call (1e-9)"""
+        import kappadata.transforms as T
+        import torch
+
+        def flat(m):
+            out = []
+            if isinstance(m, dict):
+                for k in sorted(m):
+                    out += flat(m[k])
+            elif isinstance(m, list):
+                if len(m) == 2 and all(isinstance(v, int) for v in m) and m[1] != 0:
+                    out.append(m[0] / m[1])
+                else:
+                    for v in m:
+                        out += flat(v)
+            elif isinstance(m, (int, float)) and not isinstance(m, bool):
+                out.append(float(m))
+            elif m is not None:
+                out.append(m)
+            return out
+
+        reqs, reals = [], []
+        for W, B in combos:
+            N = self.rng.randint(W, 2 * W + 3)
+            base = T.KDScheduledTransform(transform=T.KDColorJitter(0.5, 0.5, 0.25, 0.125))
+            workers = []
+            for r in range(W):
+                w = copy.deepcopy(base)
+                w._worker_init_fn(r, W, batch_size=B, updates=N)
+                workers.append(w)
+            table = [rat(fr(workers[0].schedule.get_value(b, N))) for b in range(N)]
+            x = torch.rand(3, 4, 4)
+            real = []
+            for b in range(N):
+                w = workers[b % W]
+                batch = []
+                for s_ in range(B):
+                    ctx = {}
+                    w(x, ctx=ctx)
+                    batch.append({"strength": rat(fr(ctx[w.ctx_key])), "applied": to_model(w.transform)})
+                real.append(batch)
+            reqs.append({"op": "st.loader", "W": W, "B": B, "N": N, "t": to_model(base.transform), "schedule": table})
+            reals.append((W, B, N, real))
+        for (W, B, N, real), ans in zip(reals, self.driver.run(reqs)):
+            res.cases += 1
+            res.bump("scheduled-stateful-model")
+            case = {"W": W, "B": B, "N": N}
+            if not isinstance(ans, list) or len(ans) != len(real):
+                res.disagreements.append(Disagreement(case, str(ans)[:200], f"{len(real)} batches", "loader model: shape"))
+                continue
+            for b, (mb, rb) in enumerate(zip(ans, real)):
+                bad = None
+                if len(mb) != len(rb):
+                    bad = "calls per batch"
+                else:
+                    for mo, ro in zip(mb, rb):
+                        if mo["b"] != b:
+                            bad = f"model batch index {mo['b']} for global batch {b}"
+                        elif mo["strength"] != ro["strength"]:
+                            bad = f"strength reported in ctx: model {mo['strength']} real {ro['strength']}"
+                        else:
+                            fm, frl = flat(mo["applied"]), flat(ro["applied"])
+                            if len(fm) != len(frl) or any((abs(a - c) > 1e-9) if isinstance(a, float) and isinstance(c, float) else a != c
+                                                          for a, c in zip(fm, frl)):
+                                bad = "state of the wrapped transform after the call"
+                        if bad:
+                            break
+                if bad:
+                    res.disagreements.append(Disagreement(dict(case, b=b), mb, rb, "stateful scheduled-transform model: " + bad))
+                    break
 
     # ---- the schedule's length n_batches ----------------------------------------------------
     @staticmethod
